@@ -808,3 +808,152 @@ def decode(matrix, correct=False):
     assert len(data_bits) == res['capacity'], (len(data_bits), res['capacity'])
     res.update(parse_stream(data_bits, v))
     return res
+
+
+# ----------------------------------------------------------------------------
+# ISO 7.4.9 / 7.4.10 tail model and a miniature encoder (used for self tests and as
+# an independent constructor of symbols)
+# ----------------------------------------------------------------------------
+def iso_tail(v, lvl, end):
+    """Bits that must follow the last segment ending at bit ``end`` up to the data capacity."""
+    cap = data_capacity_bits(v, lvl)
+    bits = []
+    t = min(cap - end, terminator_bits(v))
+    bits += [0] * t
+    pos = end + t
+    if pos % 8 and pos < cap:
+        pad = min(8 - pos % 8, cap - pos)
+        bits += [0] * pad
+        pos += pad
+    i = 0
+    while cap - pos >= 8:
+        cw = (0xEC, 0x11)[i % 2]
+        i += 1
+        bits += [(cw >> k) & 1 for k in range(7, -1, -1)]
+        pos += 8
+    if pos < cap:
+        if not (v in ('M1', 'M3') and cap - pos == 4):
+            raise AssertionError((v, lvl, end, pos, cap))
+        bits += [0] * 4
+    return bits
+
+
+def _bits(val, n):
+    return [(val >> k) & 1 for k in range(n - 1, -1, -1)]
+
+
+def segment_data_bits(mode, payload):
+    out = []
+    if mode == NUMERIC:
+        for i in range(0, len(payload), 3):
+            g = payload[i:i + 3]
+            out += _bits(int(g), (0, 4, 7, 10)[len(g)])
+    elif mode == ALPHANUMERIC:
+        for i in range(0, len(payload), 2):
+            g = payload[i:i + 2]
+            if len(g) == 2:
+                out += _bits(ALNUM.index(chr(g[0])) * 45 + ALNUM.index(chr(g[1])), 11)
+            else:
+                out += _bits(ALNUM.index(chr(g[0])), 6)
+    elif mode == BYTE:
+        for b in payload:
+            out += _bits(b, 8)
+    elif mode == KANJI:
+        for i in range(0, len(payload), 2):
+            code = (payload[i] << 8) | payload[i + 1]
+            code -= 0x8140 if code <= 0x9ffc else 0xc140
+            out += _bits((code >> 8) * 0xc0 + (code & 0xff), 13)
+    elif mode == HANZI:
+        for i in range(0, len(payload), 2):
+            code = (payload[i] << 8) | payload[i + 1]
+            code -= 0xa1a1 if code <= 0xaafe else 0xa6a1
+            out += _bits((code >> 8) * 0x60 + (code & 0xff), 13)
+    else:
+        raise ValueError(mode)
+    return out
+
+
+_QR_MODE_IND = {NUMERIC: 1, ALPHANUMERIC: 2, BYTE: 4, KANJI: 8, HANZI: 13}
+_MICRO_MODE_IND = {NUMERIC: 0, ALPHANUMERIC: 1, BYTE: 2, KANJI: 3}
+
+
+def stream_bits(v, segments, sa=None):
+    """segments: list of (mode, payload bytes[, eci number])."""
+    out = []
+    if sa is not None:
+        out += _bits(3, 4) + _bits(sa[0], 4) + _bits(sa[1], 4) + _bits(sa[2], 8)
+    for seg in segments:
+        mode, payload = seg[0], seg[1]
+        if len(seg) > 2 and seg[2] is not None:
+            out += _bits(7, 4) + _bits(seg[2], 8)
+        if is_micro(v):
+            out += _bits(_MICRO_MODE_IND[mode], mode_indicator_bits(v))
+        else:
+            out += _bits(_QR_MODE_IND[mode], 4)
+            if mode == HANZI:
+                out += _bits(1, 4)
+        n = len(payload) // 2 if mode in (KANJI, HANZI) else len(payload)
+        out += _bits(n, cci_bits(v, mode))
+        out += segment_data_bits(mode, payload)
+    return out
+
+
+def build_matrix(v, lvl, mask, data_bits):
+    """Builds the complete symbol for the given data bit stream (length = data capacity)."""
+    if len(data_bits) != data_capacity_bits(v, lvl):
+        raise ValueError('data bits do not fill the capacity')
+    layout = block_layout(v, lvl)
+    half = v in ('M1', 'M3')
+    cws = []
+    pos = 0
+    total_data = sum(d for t, d in layout)
+    for i in range(total_data):
+        w = 4 if (half and i == total_data - 1) else 8
+        val = 0
+        for b in data_bits[pos:pos + w]:
+            val = (val << 1) | b
+        pos += w
+        cws.append(val << (8 - w))
+    blocks = []
+    p = 0
+    for t, d in layout:
+        data = cws[p:p + d]
+        p += d
+        blocks.append((data, rs_encode(data, t - d)))
+    bits = join_codewords(blocks, v, lvl)
+    bits += [0] * remainder_bits(v)
+    positions = data_positions(v)
+    if len(bits) != len(positions):
+        raise AssertionError((len(bits), len(positions)))
+    n = size_of(v)
+    cls, val = function_map(v)
+    m = [[0] * n for _ in range(n)]
+    for r in range(n):
+        for c in range(n):
+            if val[r][c] is not None:
+                m[r][c] = val[r][c]
+    fn = mask_fn(v, mask)
+    for b, (r, c) in zip(bits, positions):
+        m[r][c] = b ^ (1 if fn(r, c) else 0)
+    fw = format_word(v, lvl, mask)
+    c1, c2 = format_positions(v)
+    for i, (r, c) in enumerate(c1):
+        m[r][c] = (fw >> i) & 1
+    for i, (r, c) in enumerate(c2 or []):
+        m[r][c] = (fw >> i) & 1
+    if not is_micro(v) and v >= 7:
+        vw = golay18_6(v)
+        a, b = version_positions(v)
+        for i in range(18):
+            m[a[i][0]][a[i][1]] = (vw >> i) & 1
+            m[b[i][0]][b[i][1]] = (vw >> i) & 1
+    return tuple(tuple(r) for r in m)
+
+
+def mini_encode(v, lvl, mask, segments, sa=None):
+    bits = stream_bits(v, segments, sa)
+    cap = data_capacity_bits(v, lvl)
+    if len(bits) > cap:
+        raise ValueError('does not fit')
+    bits += iso_tail(v, lvl, len(bits))
+    return build_matrix(v, lvl, mask, bits)
